@@ -126,6 +126,40 @@ fn same_kind_map(m: &BTreeMap<String, Val>) -> (BTreeMap<String, E>, BTreeMap<St
 }
 
 /// the answer of the implementation, as wire text; panics are caught by the caller
+/// the same tree with every node freshly allocated (no handle is shared with anything else)
+/// one by-value connective under three ownership situations of the operand handles: (fresh, shared),
+/// (shared, fresh), (fresh, fresh); "shared" = a clone of an object that is still alive elsewhere
+pub fn own_variants(op: &str, x: &E, y: &E) -> [E; 3] {
+    use biodivine_boolean_functions::traits::{Equality, Implication};
+    let go = |l: E, r: E| -> E {
+        match op {
+            "and.own" => l & r,
+            "or.own" => l | r,
+            "xor.own" => l ^ r,
+            "imply.own" => l.imply(r),
+            _ => l.iff(r),
+        }
+    };
+    let keep_x = x.clone();
+    let keep_y = y.clone();
+    let r1 = go(rebuild_expr(x), keep_y.clone());
+    let r2 = go(keep_x.clone(), rebuild_expr(y));
+    let r3 = go(rebuild_expr(x), rebuild_expr(y));
+    drop((keep_x, keep_y));
+    [r1, r2, r3]
+}
+
+pub fn rebuild_expr(e: &E) -> E {
+    use biodivine_boolean_functions::expressions::ExpressionNode as N;
+    match e.node() {
+        N::Literal(n) => N::Literal(n.clone()).into(),
+        N::Constant(b) => N::Constant(*b).into(),
+        N::Not(x) => N::Not(rebuild_expr(x)).into(),
+        N::And(xs) => N::And(xs.iter().map(rebuild_expr).collect()).into(),
+        N::Or(xs) => N::Or(xs.iter().map(rebuild_expr).collect()).into(),
+    }
+}
+
 fn run_inner(op: &str, a: &[Arg]) -> String {
     if op.starts_with("law.") {
         let args: Vec<String> = a.iter().map(|x| xs(x).to_string()).collect();
@@ -198,6 +232,16 @@ fn run_inner(op: &str, a: &[Arg]) -> String {
                 _ => x.clone() ^ y.clone(),
             }),
             _ => panic!("HARNESS: mixed kinds"),
+        },
+        // expression connectives with every combination of uniquely owned (rebuilt node by node) and
+        // shared (a clone of a kept object) operand handles: (unique, shared), (shared, unique), (unique, unique)
+        "probe" => crate::gen2::run_probe(xs(&a[0]), xs(&a[1]).parse().expect("HARNESS: n")),
+        "and.own" | "or.own" | "xor.own" | "imply.own" | "iff.own" => match (f(&a[0]), f(&a[1])) {
+            (Val::E(x), Val::E(y)) => {
+                let [r1, r2, r3] = own_variants(op, x, y);
+                format!("(L {} {} {})", enc_expr(&r1), enc_expr(&r2), enc_expr(&r3))
+            }
+            _ => panic!("HARNESS: kind"),
         },
         "and.self" | "or.self" | "xor.self" => match f(&a[0]) {
             Val::E(x) => enc_expr(&match op {
